@@ -291,5 +291,82 @@ pub fn run(opts: &Opts) -> Report {
         check_scenario(&mut rep, sc, limit, &mut rng, i, None);
     }
     rep.sample(json!({"scenarios": scenarios(opts.thorough()).iter().map(|s| s.line()).collect::<Vec<_>>()}));
+    stress(&mut rep, opts);
     rep
+}
+
+/// Free-running readers (no scheduler): four threads run a menu of read-only operations on one shared store, over and
+/// over, and every answer is compared with the answer the same operation gives alone. State that read-only operations
+/// share and update (a cache, a lazily built index) shows up as an answer that differs; what the OS scheduler happens
+/// to interleave is not controlled, so this can miss, but it cannot raise a false alarm on a library whose readers
+/// are independent.
+fn stress(rep: &mut Report, opts: &Opts) {
+    let mut ex = crate::fam::store::Exec::new();
+    // multi-byte text longer than a few milestones, words to search for, annotations with data
+    let words: Vec<String> = (0..60).map(|i| format!("w\u{f6}rd{}\u{e9}", i)).collect();
+    let text = words.join(" \u{1F600} ");
+    ex.store.add_resource(TextResourceBuilder::new().with_id("big").with_text(text.clone())).ok();
+    let chars: Vec<char> = text.chars().collect();
+    let mut pos = 0usize;
+    for (i, w) in words.iter().enumerate() {
+        let n = w.chars().count();
+        if i % 3 == 0 { ex.store.annotate(AnnotationBuilder::new().with_id(format!("a{}", i)).with_target(SelectorBuilder::textselector("big", Offset::simple(pos, pos + n))).with_data("s", "k", (i % 5) as isize)).ok(); }
+        pos += n + 3;
+    }
+    let _ = chars;
+    let store = Arc::new(ex.store);
+    #[derive(Clone)]
+    enum Op { Find(String), Text(usize, usize), Query(String), Json, AnnText(String), Regex(String), Split }
+    let run = |store: &AnnotationStore, op: &Op| -> String {
+        let r = store.resource("big").expect("resource");
+        match op {
+            Op::Find(w) => format!("{:?}", r.find_text(w).map(|t| (t.begin(), t.end())).collect::<Vec<_>>()),
+            Op::Text(b, e) => r.textselection(&Offset::simple(*b, *e)).map(|t| t.text().to_string()).unwrap_or_else(|e| format!("error {}", e)),
+            Op::Query(q) => match Query::try_from(q.as_str()).and_then(|q| store.query(q)) { Ok(it) => format!("{:?}", it.map(|row| row.iter().map(|x| match x { QueryResultItem::Annotation(a) => a.handle().as_usize(), QueryResultItem::TextSelection(t) => t.begin(), _ => 0 }).collect::<Vec<_>>()).collect::<Vec<_>>()), Err(e) => format!("error {}", e) },
+            Op::Json => store.to_json_string(store.config()).map(|s| format!("{} bytes, fnv {}", s.len(), fnv(&s))).unwrap_or_else(|e| format!("error {}", e)),
+            Op::AnnText(id) => store.annotation(id.as_str()).map(|a| a.text_join("|")).unwrap_or_default(),
+            Op::Regex(p) => match regex::Regex::new(p) { Ok(re) => r.find_text_regex(&[re], None, true).map(|it| format!("{:?}", it.map(|m| m.textselections().iter().map(|t| (t.begin(), t.end())).collect::<Vec<_>>()).collect::<Vec<_>>())).unwrap_or_else(|e| format!("error {}", e)), Err(_) => "bad regex".into() },
+            Op::Split => format!("{:?}", r.split_text(" \u{1F600} ").map(|t| (t.begin(), t.end())).take(80).collect::<Vec<_>>()),
+        }
+    };
+    let mut ops: Vec<Op> = vec![Op::Json, Op::Split, Op::Regex("w\u{f6}rd[0-9]+".into()), Op::Regex("\u{e9} ".into()), Op::Query("SELECT ANNOTATION ?a WHERE DATA \"s\" \"k\" = 2;".into()), Op::Query("SELECT TEXT ?t WHERE RESOURCE \"big\"; DATA \"s\" \"k\" > 1;".into())];
+    for (i, w) in words.iter().enumerate() { ops.push(Op::Find(w.clone())); if i % 3 == 0 { ops.push(Op::AnnText(format!("a{}", i))); } if i % 7 == 0 { ops.push(Op::Text(i * 3, i * 3 + 17)); } }
+    let alone: Vec<String> = ops.iter().map(|op| run(&store, op)).collect();
+    let rounds = if opts.thorough() { 40 } else { 8 };
+    let nthreads = 4;
+    let mismatch: Arc<Mutex<Vec<(usize, String)>>> = Arc::new(Mutex::new(vec![]));
+    let mut handles = vec![];
+    for t in 0..nthreads {
+        let (store, ops, alone, mismatch) = (store.clone(), ops.clone(), alone.clone(), mismatch.clone());
+        handles.push(std::thread::spawn(move || {
+            let r = std::panic::catch_unwind(std::panic::AssertUnwindSafe(|| {
+                for round in 0..rounds {
+                    for k in 0..ops.len() {
+                        let i = (k * (2 * t + 1) + round * 7 + t * 13) % ops.len();
+                        let got = { let r = store.resource("big").expect("resource"); let _ = r; 
+                            // (the closure cannot be shared across threads: re-dispatch here)
+                            match &ops[i] {
+                                Op::Find(w) => format!("{:?}", store.resource("big").unwrap().find_text(w).map(|t| (t.begin(), t.end())).collect::<Vec<_>>()),
+                                Op::Text(b, e) => store.resource("big").unwrap().textselection(&Offset::simple(*b, *e)).map(|t| t.text().to_string()).unwrap_or_else(|e| format!("error {}", e)),
+                                Op::Query(q) => match Query::try_from(q.as_str()).and_then(|q| store.query(q)) { Ok(it) => format!("{:?}", it.map(|row| row.iter().map(|x| match x { QueryResultItem::Annotation(a) => a.handle().as_usize(), QueryResultItem::TextSelection(t) => t.begin(), _ => 0 }).collect::<Vec<_>>()).collect::<Vec<_>>()), Err(e) => format!("error {}", e) },
+                                Op::Json => store.to_json_string(store.config()).map(|s| format!("{} bytes, fnv {}", s.len(), fnv(&s))).unwrap_or_else(|e| format!("error {}", e)),
+                                Op::AnnText(id) => store.annotation(id.as_str()).map(|a| a.text_join("|")).unwrap_or_default(),
+                                Op::Regex(p) => match regex::Regex::new(p) { Ok(re) => store.resource("big").unwrap().find_text_regex(&[re], None, true).map(|it| format!("{:?}", it.map(|m| m.textselections().iter().map(|t| (t.begin(), t.end())).collect::<Vec<_>>()).collect::<Vec<_>>())).unwrap_or_else(|e| format!("error {}", e)), Err(_) => "bad regex".into() },
+                                Op::Split => format!("{:?}", store.resource("big").unwrap().split_text(" \u{1F600} ").map(|t| (t.begin(), t.end())).take(80).collect::<Vec<_>>()),
+                            } };
+                        if got != alone[i] { let mut m = mismatch.lock().unwrap(); if m.len() < 5 { m.push((i, got)); } return; }
+                    }
+                }
+            }));
+            if r.is_err() { mismatch.lock().unwrap().push((usize::MAX, "a reader thread panicked".into())); }
+        }));
+    }
+    for h in handles { let _ = h.join(); }
+    rep.count("stress:rounds");
+    rep.case(Some("stress"));
+    let m = mismatch.lock().unwrap();
+    if let Some((i, got)) = m.first() {
+        let (what, want) = if *i == usize::MAX { ("a reader".to_string(), "no panic".to_string()) } else { (match &ops[*i] { Op::Find(w) => format!("find_text({:?})", w), Op::Text(b, e) => format!("text {}..{}", b, e), Op::Query(q) => q.clone(), Op::Json => "to_json_string".into(), Op::AnnText(a) => format!("text of {}", a), Op::Regex(p) => format!("find_text_regex({:?})", p), Op::Split => "split_text".into() }, alone[*i].clone()) };
+        rep.fail("oracle", "C20/free-running-readers-differ-from-sequential", vec![format!("stress: 4 threads x {} rounds over {} read-only operations on one store; {}", rounds, ops.len(), what)], &want.chars().take(200).collect::<String>(), &got.chars().take(200).collect::<String>());
+    }
 }
